@@ -51,8 +51,12 @@ GEOMS = {
               dict(i=2, j=2, k=2, l=2), [None]),
     "dim1": ([("A", "ijk", "real"), ("B", "kl", "cplx"), ("C", "lj", "real")], dict(i=1, j=3, k=2, l=1), [None, ("i",)]),
     "repeated": ([("A", "iij", "real"), ("B", "jk", "real")], dict(i=2, j=2, k=2), [("k",)]),
+    # degenerate networks (third round): nothing to contract, so the executor may hand back the stored array itself
+    "single": ([("A", "ij", "cplx")], dict(i=2, j=3), [None, ("j", "i")]),
+    "singlescalar": ([("S", "", "cplx")], dict(), [None]),
+    "outer2": ([("A", "i", "real"), ("B", "j", "cplx")], dict(i=2, j=2), [None, ("j", "i")]),
 }
-QUICK_GEOMS = ["chain3", "loop3", "hyper3", "hyperscalar", "disconnected", "withscalar", "dim1"]
+QUICK_GEOMS = ["chain3", "loop3", "hyper3", "hyperscalar", "disconnected", "withscalar", "dim1", "single", "singlescalar", "outer2"]
 
 
 def build(mk, name, exponent="sym"):
@@ -163,6 +167,10 @@ def full_contraction(mk, geom, expo):
         t2 = tn.copy()
         r = t2.contract(all, inplace=True, strip_exponent=True, **kw)
         mk.eq(f"inplace+strip out={oarg}", as_value(r, out, mk), want)
+        # none of the calls above (all but the last two on copies are out-of-place) may have touched the network itself:
+        # it still denotes the same value, and a repeated evaluation gives it again
+        mk.eq(f"after all routes out={oarg}: the network still denotes its value (stored arrays untouched)", ref.tn_dense(tn, out), want)
+        mk.eq(f"repeated contract(all) out={oarg}", as_value(tn.contract(all, **kw), out, mk), want)
 
 
 @obligation(PROP, params=[{"geom": g, "expo": x, "allpaths": True} for g in ("loop3", "hyper3", "ring4", "disconnected")
